@@ -286,6 +286,18 @@ def _like_source(ts, dt):
     return None
 
 
+def _calls_in(x):
+    """every ('call', name, args, kw) node inside an IR statement or expression"""
+    if isinstance(x, (tuple, list)):
+        if isinstance(x, tuple) and len(x) == 4 and x[0] == "call" and isinstance(x[1], str):
+            yield x
+        for y in x:
+            yield from _calls_in(y)
+    elif isinstance(x, dict):
+        for y in x.values():
+            yield from _calls_in(y)
+
+
 def r8_buffers(ctx):
     """element types: the Python kernels compute in float64 for every input dtype (their buffers are float64, or take the dtype of an input the
     entry point converted to float64; no arithmetic on two values of the caller's element type), the entry points hand over the caller's values
@@ -340,8 +352,33 @@ def r8_buffers(ctx):
         handed = _handed_over(_entry_exec(ctx, "C")[1], nm)
         bad = [(lab, cls) for lab, cls in handed if cls != "f64"]
         ok = bool(handed) and not bad
-        ctx.check(ok, f"{tag}: c_rain.rainflow converts the caller's sequence to an NPY_DOUBLE array before the kernel reads it as double*", where,
-                  None if ok else [f"[{lab}] element type {cls}" for lab, cls in (bad or handed)] or "no dispatching path found", key=f"C05-R8|{tag}|NPY_DOUBLE")
+        if bad and all(cls == "unmodelled" for lab, cls in bad):
+            ctx.error(f"{tag}: the element type of the array c_rain.rainflow hands over is not known (made by a numpy C-API call this engine has no model for)", where,
+                      [lab for lab, cls in bad])
+        else:
+            ctx.check(ok, f"{tag}: c_rain.rainflow converts the caller's sequence to an NPY_DOUBLE array before the kernel reads it as double*", where,
+                      None if ok else [f"[{lab}] element type {cls}" for lab, cls in (bad or handed)] or "no dispatching path found", key=f"C05-R8|{tag}|NPY_DOUBLE")
+        # ... and as a packed buffer: `peaks[k]` / `*p++` on the data pointer steps by sizeof(double), whatever the array's stride is.  Unless the
+        # kernel reads the strides, the entry point must have established that the vector is contiguous
+        strided = any(c[1] in ("PyArray_STRIDE", "PyArray_STRIDES") for s in R.walk_ir(ts.ex.f.body) for c in _calls_in(s))
+        lays = _layouts_handed_over(_entry_exec(ctx, "C")[1], nm)
+        if not lays:
+            ctx.fail(f"{tag}: c_rain.rainflow hands the kernel a contiguous vector", where, "no dispatching path found", key=f"C05-R8|{tag}|contiguous")
+        for lab, cls, why in lays:
+            msg = f"{tag} [{lab}]: the kernel indexes the array's data pointer as a packed double buffer, so c_rain.rainflow establishes that the vector " \
+                  f"is C-contiguous before it hands it over"
+            if cls == "contiguous":
+                ctx.ok(msg + f" ({why})", where)
+            elif not rd:
+                ctx.error(f"{tag} [{lab}]: no PyArray_DATA of the input found, how the kernel reads the vector is not known", where)
+            elif cls == "not requested" and not strided:
+                ctx.fail(msg, where, {"established": why, "consequence": "for a float64 view that is not contiguous (x[::3], x[::-1], a column A[:, 1]) PyArray_FromAny "
+                                      "returns the view itself; the kernel then counts the neighbours in memory, not the elements of the sequence "
+                                      "(and reads outside the buffer for a negative stride), while py_rain indexes through the strides"},
+                         key=f"C05-R8|{tag}|contiguous")
+            else:
+                ctx.error(f"{tag} [{lab}]: cannot decide whether the kernel reads the elements of the vector: " +
+                          ("the kernel reads the array's strides" if strided else why), where)
         ctx.check(al["pts"]["dtype"] in C_DOUBLE, f"{tag}: the value stack is allocated with sizeof(double) ({al['pts']['dtype']})", where)
         ctx.check(al["rf"]["dtype"] == "NPY_DOUBLE", f"{tag}: the cycle table is an NPY_DOUBLE array ({al['rf']['dtype']})", where)
         if a["offsets"]:
@@ -424,6 +461,9 @@ def _entry_rule(ctx, tag, ex, where, arr_ok, is_flag, kernels):
             nret += 1
             args = [x for x in ret[2] if not (isinstance(x, tuple) and x and x[0] == "kw")]
             ok = len(args) == 2 and arr_ok(args[0])
+            if not ok and len(args) == 2 and _unmodelled_array(args[0]):
+                ctx.error(f"{tag} [{label}]: the kernel receives the result of {args[0][1]}, a numpy C-API call this engine has no model for", where, Y.show(ret))
+                continue
             ctx.check(ok, f"{tag} [{label}]: the kernel receives the caller's sequence as an array", where, None if ok else Y.show(ret), key=f"C05-R7|{tag}|array argument")
             if not ok:
                 continue
@@ -444,6 +484,10 @@ def _entry_rule(ctx, tag, ex, where, arr_ok, is_flag, kernels):
             fl = _flag_truth(t["key"], is_flag)
             ok = fl is not None and kernels[ret[1]] == fl
             ctx.check(ok, f"{tag} [{label}]: getoffsets selects the kernel with offsets, and only it ({ret[1]})", where, key=f"C05-R7|{tag}|dispatch")
+        elif ret == ("null",) and t["dst"] == Y.END and _api_failed(t["key"]):
+            # NULL handed on after a numpy C-API call this engine has no model for returned NULL: numpy has set the exception; when that happens
+            # is not known here, so nothing is claimed for this path
+            continue
         else:
             refused = t["dst"] == Y.RAISE or (t["dst"] == Y.END and ret == ("null",) and any(e[0] == "seterr" for e in t["events"]))
             nrefuse += 1
@@ -479,6 +523,22 @@ def _entry_exec(ctx, side):
     return cache[side]
 
 
+def _unmodelled_array(v):
+    """the value of a numpy C-API call this engine has no model for (PyArray_Ravel, PyArray_Squeeze, ...): what it returns is not known, so
+    nothing about it is a violation"""
+    return isinstance(v, tuple) and len(v) == 4 and v[0] == "opq" and isinstance(v[1], str) and v[1].startswith("PyArray_")
+
+
+def _api_failed(key):
+    """the path took `<unmodelled numpy C-API call> == NULL`"""
+    for atom, taken in key:
+        if atom[0] == "cmp" and atom[1] in ("==", "!=") and (atom[1] == "==") == bool(taken):
+            x, y = atom[2], atom[3]
+            if (y == ("null",) and _unmodelled_array(x)) or (x == ("null",) and _unmodelled_array(y)):
+                return True
+    return False
+
+
 def _handed_over(ex, kernel):
     """[(path label, element-type class of the array the entry point hands to `kernel`)] over the dispatching paths"""
     out = []
@@ -488,8 +548,79 @@ def _handed_over(ex, kernel):
             args = [x for x in ret[2] if not (isinstance(x, tuple) and x and x[0] == "kw")]
             label = " and ".join(("" if tk else "not ") + Y.show(x) for x, tk in t["key"]) or "always"
             a0 = args[0] if args else None
-            cls = Y.dtype_class(a0[3]) if a0 is not None and a0[0] == "obj" and a0[1] == "asarray" and len(a0) == 4 else "unspecified"
+            cls = Y.dtype_class(a0[3]) if a0 is not None and Y.is_asarray(a0) else "unmodelled" if _unmodelled_array(a0) else "unspecified"
             out.append((label, cls))
+    return out
+
+
+def _flag_word(v):
+    """the integer a requirement word evaluates to, else None"""
+    if isinstance(v, tuple) and v and v[0] == "num" and v[1].denominator == 1:
+        return int(v[1])
+    return None
+
+
+def _layout_test(atom, taken, arr, bits):
+    """True when taking this path atom establishes that `arr` is one contiguous segment in memory: the code itself tested the array's flags
+    (PyArray_IS_C_CONTIGUOUS / PyArray_ISCONTIGUOUS / PyArray_CHKFLAGS(a, word), PyArray_FLAGS(a) & word)"""
+    seg = bits["NPY_ARRAY_C_CONTIGUOUS"] | bits["NPY_ARRAY_F_CONTIGUOUS"]
+    if atom[0] == "ieq" and not taken:
+        # `flags & word` read as an integer: the path took `!= 0`.  Integer terms are named by their text: <op:&(PyArray_FLAGS(asarray(x,...)),w)>
+        a = SEM._ixaff(atom[1])
+        if len(a.c) == 1 and a.k == 0:
+            nm = next(iter(a.c))
+            for pat in (r"<op:&\(PyArray_FLAGS\((?P<a>.*)\),(?P<w>\d+)\)>", r"<op:&\((?P<w>\d+),PyArray_FLAGS\((?P<a>.*)\)\)>"):
+                m = re.fullmatch(pat, nm)
+                if m and Y.is_asarray(arr) and (m.group("a") == Y.show(Y.arr_id(arr)) or m.group("a").startswith("asarray(" + Y.show(arr[2]) + ",")):
+                    w = int(m.group("w"))
+                    return w != 0 and not (w & ~seg)
+        return False
+    if atom[0] != "truth" or not taken:
+        return False
+    v = atom[1]
+    if v[0] == "opq" and v[1] == "PyArray_CHKFLAGS" and len(v[2]) == 2 and Y.arr_id(v[2][0]) == Y.arr_id(arr):
+        w = _flag_word(v[2][1])
+        return w is not None and bool(w & seg)                         # all bits of w are set, one of them a contiguity bit
+    if v[0] == "opq" and v[1] == "op:&" and len(v[2]) == 2:
+        for x, y in (v[2], v[2][::-1]):
+            w = _flag_word(y)
+            if x[0] == "opq" and x[1] == "PyArray_FLAGS" and len(x[2]) == 1 and Y.arr_id(x[2][0]) == Y.arr_id(arr) and w is not None:
+                return w != 0 and not (w & ~seg)                       # some bit of w is set, all of them contiguity bits
+    return False
+
+
+def _layouts_handed_over(ex, kernel):
+    """[(path label, 'contiguous' | 'not requested' | 'unknown', detail)] over the dispatching paths: what the entry point established about the
+    memory layout of the array it hands to `kernel`.  The kernel is reached with vectors only (C05-R7), and a vector that is F-contiguous, or
+    that numpy has just copied, is C-contiguous; so a requirement word with NPY_ARRAY_C_CONTIGUOUS, NPY_ARRAY_F_CONTIGUOUS or
+    NPY_ARRAY_ENSURECOPY establishes it, so does a call that returns a contiguous array, so does a flag test the path took.
+    'not requested' is a proof: every conversion on the way has a requirement word whose value is known and has none of the three bits, and no
+    test of the layout lies on the path - PyArray_FromAny then returns a float64 view `x[::3]` / `x[::-1]` / `A[:, 1]` as it is"""
+    bits = R.numpy_flag_bits()
+    est = bits["NPY_ARRAY_C_CONTIGUOUS"] | bits["NPY_ARRAY_F_CONTIGUOUS"] | bits["NPY_ARRAY_ENSURECOPY"]
+    out = []
+    for t in ex.trans:
+        ret = t["ret"]
+        if not (ret is not None and ret[0] == "opq" and ret[1] == kernel):
+            continue
+        args = [x for x in ret[2] if not (isinstance(x, tuple) and x and x[0] == "kw")]
+        label = " and ".join(("" if tk else "not ") + Y.show(x) for x, tk in t["key"]) or "always"
+        a0 = args[0] if args else None
+        if a0 is None or not Y.is_asarray(a0):
+            out.append((label, "unknown", "the kernel's first argument is not an array made from the caller's sequence by a call this engine models"))
+            continue
+        lay = a0[4][1:]
+        words = [_flag_word(e[1]) for e in lay if e[0] == "req"]
+        if any(e[0] == "contig" for e in lay):
+            out.append((label, "contiguous", next(e[1][1] for e in lay if e[0] == "contig")))
+        elif any(w is not None and w & est for w in words):
+            out.append((label, "contiguous", "requirements " + ", ".join(hex(w) for w in words if w is not None)))
+        elif any(_layout_test(atom, taken, a0, bits) for atom, taken in t["key"]):
+            out.append((label, "contiguous", "tested on the path"))
+        elif words and all(w is not None for w in words):
+            out.append((label, "not requested", "requirements " + ", ".join(hex(w) for w in words) + f" (NPY_ARRAY_C_CONTIGUOUS = {hex(bits['NPY_ARRAY_C_CONTIGUOUS'])})"))
+        else:
+            out.append((label, "unknown", "requirements " + (", ".join(Y.show(e[1]) for e in lay if e[0] == "req") or "not given")))
     return out
 
 
